@@ -8,6 +8,7 @@ namespace occa {
   namespace lang {
     class charNode : public exprNode {
     public:
+      int encoding;
       std::string value;
 
       charNode(token_t *token_,
